@@ -162,6 +162,29 @@ pub fn field_variants(t: &mut Tape, plan: &XzPlan) -> Vec<(XzPlan, &'static str,
     } else {
         (0..nb).collect()
     };
+    // integers spelt over-long (ten bytes): the nine legal groups carry the TRUE value,
+    // the tenth adds a multiple of 2^63 - a decoder that shifts it out of 64 bits
+    // reads the true value from a field that does not hold it
+    {
+        let mut names: Vec<String> = vec!["index.count".into()];
+        for bi in 0..plan.blocks.len().min(3) {
+            names.push(format!("index.rec{}.unpadded", bi));
+            names.push(format!("index.rec{}.uncompressed", bi));
+            if plan.blocks[bi].has_csize {
+                names.push(format!("block{}.csize", bi));
+            }
+            if plan.blocks[bi].has_usize {
+                names.push(format!("block{}.usize", bi));
+            }
+        }
+        for name in names {
+            for tenth in [0x02u8, 0x7E, 0x01] {
+                let mut p = plan.clone();
+                p.ov_overlong = Some((name.clone(), tenth));
+                v.push((p, "vli.overlong", format!("{} written in ten bytes, tenth byte 0x{:02x}", name, tenth)));
+            }
+        }
+    }
     // two index records wrong together so that the record count and both column
     // sums stay right: records swapped, or d bytes moved from one record to another
     if nb >= 2 {
@@ -225,6 +248,15 @@ pub fn field_variants(t: &mut Tape, plan: &XzPlan) -> Vec<(XzPlan, &'static str,
                 p.blocks[bi].ov_csize = Some(x);
                 v.push((p, "block.csize", format!("block {} compressed size {} -> {}", bi, b.payload.len(), x)));
             }
+        }
+        // bytes between the LZMA2 end byte and the block padding, with a declared
+        // compressed size (and padding, index record) that covers them consistently
+        for k in [1usize, 3, 4, 9] {
+            let mut p = plan.clone();
+            p.blocks[bi].has_csize = true;
+            let junk: Vec<u8> = (0..k).map(|_| t.byte()).collect();
+            p.blocks[bi].payload.extend_from_slice(&junk);
+            v.push((p, "block.csize", format!("block {}: {} byte(s) after the LZMA2 end byte, declared compressed size, padding and index consistent with them", bi, k)));
         }
         if b.has_usize {
             for x in u64_values(t, ulen) {
@@ -441,7 +473,7 @@ impl Property for C06 {
         "fault_enumeration"
     }
     fn rule(&self) -> &'static str {
-        "per seeded valid .xz file (0-3 blocks, check None/CRC32/CRC64, optional fields, paddings): (a) one bit flipped — every bit position in the thorough tier, a sample in quick; (b) truncation at every (sampled) offset; (c) every integrity/size field (magics, stream flags, the 4 kinds of CRC32, backward size, index count and records (also two records wrong together with both column sums preserved), declared block sizes, size byte, all paddings (one byte non-zero; several at once: equal, cancelling under xor or sum, all 0xFF), check field) replaced by values from {0, 1, true±1, true+4, true+2^30·k, true+2^32, 2^31, 2^32-1, 2^63-1, random} with every enclosing CRC recomputed. One evaluation = one mutated file through xz_decompress (reader rotating over: slice, 1-byte refills, fixed k, irregular refills); Ok obliges (1) the field-exact judge to confirm every listed field against the delivered bytes and (2) for CRC32/CRC64 files delivered == original; all cases distinct by scenario hash and non-trivial"
+        "per seeded valid .xz file (0-3 blocks, check None/CRC32/CRC64, optional fields, paddings): (a) one bit flipped — every bit position in the thorough tier, a sample in quick; (b) truncation at every (sampled) offset; (c) every integrity/size field (magics, stream flags, the 4 kinds of CRC32, backward size, index count and records (also two records wrong together with both column sums preserved; also every size/count integer spelt over-long in ten bytes whose first nine carry the true value), declared block sizes, size byte, all paddings (one byte non-zero; several at once: equal, cancelling under xor or sum, all 0xFF), check field) replaced by values from {0, 1, true±1, true+4, true+2^30·k, true+2^32, 2^31, 2^32-1, 2^63-1, random} with every enclosing CRC recomputed. One evaluation = one mutated file through xz_decompress (reader rotating over: slice, 1-byte refills, fixed k, irregular refills); Ok obliges (1) the field-exact judge to confirm every listed field against the delivered bytes and (2) for CRC32/CRC64 files delivered == original; all cases distinct by scenario hash and non-trivial"
     }
     fn runs(&self, tier: Tier) -> u64 {
         match tier {
@@ -536,6 +568,7 @@ impl Property for C06 {
             let key: &'static str = match field {
                 "footer.backward" => "probe.substituted_backward_size",
                 "index.records_pair" => "probe.two_index_records_wrong_sums_preserved",
+                "vli.overlong" => "probe.integer_spelt_in_ten_bytes",
                 "index.count" | "index.unpadded" | "index.uncompressed" | "index.pad" | "index.crc32" => "probe.substituted_index_field",
                 "block.csize" | "block.usize" | "block.size_byte" => "probe.substituted_declared_block_size",
                 "block.pad" | "block.header_pad" => "probe.substituted_padding",
